@@ -57,8 +57,13 @@ def one_case(rng, runq, todo, rep, dim, quick, idx):
     nsegs = [int(rng.integers(1, max_seg + 1)) for _ in range(dim)]
     degs = [int(rng.integers(1, max_deg + 1)) for _ in range(dim)]
     d = int(rng.integers(1, 4))
-    for k in range(dim):                       # need at least d+1 basis functions
-        while nsegs[k] + degs[k] <= d:
+    tiny = dim == 1 and idx % 5 == 4
+    if tiny:
+        # fewer basis functions than the order of the differences: the penalty matrix is EMPTY (no penalty at all), the fit is
+        # plain weighted least squares in the spline space — and still reproduces polynomials of degree < order in that space
+        nsegs[0], degs[0], d = [(1, 1, 2), (1, 1, 3), (1, 2, 3), (2, 1, 3)][(idx // 5) % 4]
+    for k in range(dim):                       # otherwise at least d+1 basis functions
+        while not tiny and nsegs[k] + degs[k] <= d:
             nsegs[k] += 1
     xs_list = []
     for k in range(dim):
